@@ -238,6 +238,11 @@ func (p *sparser) parseType() *SType {
 	if t.kind != "id" {
 		panic(fmt.Sprintf("spec syntax: expected type at %d in %q", t.pos, p.src))
 	}
+	if t.text == "struct" && p.isOp("{") {
+		p.next()
+		p.expectOp("}")
+		return &SType{Kind: "name", Name: "struct{}"}
+	}
 	if t.text == "map" {
 		p.expectOp("[")
 		k := p.parseType()
@@ -613,7 +618,7 @@ type FrameDecl struct {
 var ghostDecls = map[string]string{}
 
 var clauseKeywords = map[string]bool{
-	"at": true, "freshresult": true, "set": true, "tag": true, "callsite": true,
+	"at": true, "freshresult": true, "set": true, "tag": true, "callsite": true, "preserves": true,
 	"requires": true, "ensures": true, "modifies": true, "loop": true, "decreases": true,
 	"pure": true, "inline": true, "safe": true, "assume": true, "returns": true, "nopanic": true,
 	"purefield": true, "cases": true, "replay": true, "panics_if": true, "opaque": true, "reads": true,
@@ -873,7 +878,7 @@ func LoadContractFile(path string, trusted bool) (*ContractSet, error) {
 						c.Props = fs.Props
 					}
 					fs.Clauses = append(fs.Clauses, c)
-				case "modifies", "cases", "havoc", "loopmodifies", "frame", "event", "replay", "at", "tag":
+				case "modifies", "cases", "havoc", "loopmodifies", "frame", "event", "replay", "at", "tag", "preserves":
 					if c.Props == nil {
 						c.Props = fs.Props
 					}
